@@ -204,10 +204,20 @@ class Real:
             if signed and v >= 1 << (bits - 1): v -= 1 << bits
             return Fraction(v)
         if z3.is_bool(v): return z3.If(v, z3.RealVal(1), z3.RealVal(0))
+        if z3.is_app(v) and v.decl().kind() == z3.Z3_OP_ITE and z3.is_bv_value(v.arg(1)) and z3.is_bv_value(v.arg(2)):
+            def sv(x):
+                n = x.as_long()
+                return n - (1 << x.size()) if signed and n >= 1 << (x.size() - 1) else n
+            return z3.If(v.arg(0), z3.RealVal(sv(v.arg(1))), z3.RealVal(sv(v.arg(2))))
         return z3.ToReal(z3.BV2Int(v, is_signed=signed))
     def fptosi(s, v, bits, signed=True):
         if isinstance(v, Fraction):
             return int(v) & ((1 << bits) - 1)      # int() truncates toward zero
+        # (cond ? c1 : c2) with rational constants: convert the branches
+        if z3.is_app(v) and v.decl().kind() == z3.Z3_OP_ITE and z3.is_rational_value(v.arg(1)) and z3.is_rational_value(v.arg(2)):
+            def tr(x):
+                f = Fraction(x.numerator_as_long(), x.denominator_as_long()); return int(f) & ((1 << bits) - 1)
+            return z3.If(v.arg(0), z3.BitVecVal(tr(v.arg(1)), bits), z3.BitVecVal(tr(v.arg(2)), bits))
         raise Unsupported("fptosi of a symbolic real")
     def to_bits(s, v):
         if isinstance(v, Fraction):
